@@ -18,10 +18,15 @@ fn main() {
         let script = Script(vec![
             Op::NewObject { blueprint: PUPPET_BLUEPRINT.into(), fields: vec![(0, any(1), false), (1, any(2), false), (2, any(3), true)], kv: vec![] },
             Op::Globalize { object: N::Slot(0), owner: OwnerSpec::None, reservation: None, with_royalty: false },
-            Op::KvStoreNew { allow_ownership: false },
-            Op::KvOpen { store: N::Slot(2), key: any(7), mutable: true },
-            Op::KvSet(3, any(99)),
-            Op::KvClose(3),
+            Op::CallMethod { receiver: N::Slot(1), method: PUPPET_ACT.into(), args: scrypto_encode(&(Script(vec![
+                Op::ActorOpenKv { state: 0, collection: PUPPET_COLL_KV, key: any(7), flags: 1 },
+                Op::KvSet(0, any(99)),
+                Op::KvClose(0),
+                Op::ActorSortedInsert { state: 0, collection: PUPPET_COLL_SORTED, sort: 5, key: any(1), value: any(2) },
+                Op::ActorOpenField { state: 0, field: 0, flags: 1 },
+                Op::FieldWrite(4, any(1234)),
+                Op::FieldClose(4),
+            ]),)).unwrap() },
             Op::Log { level: 2, message: "hello".into() },
             Op::ActorEmitEvent { name: "E0".into(), data: puppet_event_data(vec![1,2,3]), force_write: false },
         ]);
